@@ -4,7 +4,7 @@
     generated tree); strings are lists of code points, booleans 0/1, options lists of length <= 1:
       (0) Literal | (1 loc name is_mut) Ident | (2 loc obj name) Attr
       (3 loc callee attr? sig pos star kw kwstar) Call, kw = ((name expr) ...),
-          sig = () | (0) | (1 is_method nd var d kwvar), param = ((name)? kind), kind 0 Ref 1 RefMut 2 mutable 3 other
+          sig = () | (0) | (1 (is_method_call obj_is_class) nd var d kwvar) (or (1 implicit_self ...)), param = ((name)? kind), kind 0 Ref 1 RefMut 2 mutable 3 other
       (4 l r) BinOp | (5 e) UnaryOp | (6 es) List | (7 e len?) ListWithLength | (8 ..) List comprehension
       (9 es) Tuple | (10 es) Set | (11 e len) SetWithLength | (12 ((k v) ...)) Dict | (13) other Dict
       (14 (block ...)) Record (attribute bodies) | (15 name params body) Lambda | (16 def) Def
@@ -35,7 +35,7 @@ Definition dec_sig (x : sx) : call_sig :=
   | SL [] => SigNone
   | SL [SZ _] => SigTodo
   | SL [SZ _; m; nd; var; d; kwvar] =>
-    SigSubr (MkSig (zb m) (map dec_param (sx_l nd)) (map dec_param (sx_l var)) (map dec_param (sx_l d))
+    SigSubr (MkSig (match m with SL [a; b] => zb a && negb (zb b) | _ => zb m end) (map dec_param (sx_l nd)) (map dec_param (sx_l var)) (map dec_param (sx_l d))
                    (map dec_param (sx_l kwvar)))
   | _ => SigTodo
   end.
